@@ -154,3 +154,54 @@ def poly_eval(coefs: dict, x, y, z):
         a, b, c = (int(s) for s in k.split(","))
         out = out + v * x**a * y**b * z**c
     return out
+
+
+def green_areas(group, coord) -> np.ndarray:
+    """Signed area of every element of a planar (z = const) 2D group, curved or not, WITHOUT any quadrature rule or shape
+    function of the library: the boundary of an isoparametric element is the union of its edges, each the 1-D Lagrange
+    interpolant through the nodes lying on that edge of the reference element (taken from Get_Local_Coords and sorted along
+    the edge), and area = 1/2 oint (x dy - y dx), integrated edge by edge with numpy's Gauss-Legendre rule (exact for the
+    polynomial integrand)."""
+    loc = np.asarray(group.Get_Local_Coords(), float)[:, :2]
+    conn = np.asarray(group.connect, int)
+    X = np.asarray(coord, float)
+    shape = shape_of(str(group.elemType))
+    if shape == "TRI":
+        corners = [(0.0, 0.0), (1.0, 0.0), (0.0, 1.0)]
+    elif shape == "QUAD":
+        corners = [(-1.0, -1.0), (1.0, -1.0), (1.0, 1.0), (-1.0, 1.0)]
+    else:
+        raise ValueError(shape)
+    area = np.zeros(conn.shape[0])
+    for k in range(len(corners)):
+        a, b = np.array(corners[k]), np.array(corners[(k + 1) % len(corners)])
+        e = b - a
+        rel = loc - a
+        t = rel @ e / (e @ e)
+        off = np.abs(rel[:, 0] * e[1] - rel[:, 1] * e[0])
+        on = np.where((off < 1e-9) & (t > -1e-9) & (t < 1 + 1e-9))[0]
+        on = on[np.argsort(t[on])]
+        tn = t[on]
+        n = on.size
+        xg, wg = np.polynomial.legendre.leggauss(n + 1)
+        s = (xg + 1) / 2
+        # Lagrange basis on the nodes tn and its derivative, at the Gauss points s
+        L = np.ones((s.size, n))
+        dL = np.zeros((s.size, n))
+        for i in range(n):
+            for j in range(n):
+                if j != i:
+                    L[:, i] *= (s - tn[j]) / (tn[i] - tn[j])
+            for m in range(n):
+                if m == i:
+                    continue
+                term = np.ones(s.size) / (tn[i] - tn[m])
+                for j in range(n):
+                    if j not in (i, m):
+                        term *= (s - tn[j]) / (tn[i] - tn[j])
+                dL[:, i] += term
+        P = X[conn[:, on]]  # (Ne, n, 3)
+        x, y = np.einsum("gi,ei->eg", L, P[:, :, 0]), np.einsum("gi,ei->eg", L, P[:, :, 1])
+        dx, dy = np.einsum("gi,ei->eg", dL, P[:, :, 0]), np.einsum("gi,ei->eg", dL, P[:, :, 1])
+        area += 0.5 * np.einsum("g,eg->e", wg / 2, x * dy - y * dx)
+    return area
